@@ -143,7 +143,10 @@ class Session:
         for k in ("solve", "rail"):
             x, y = a[k], b[k]
             if isinstance(x, tuple) or isinstance(y, tuple):
-                if x != y:
+                # both raise: the exception class must agree; the message may name
+                # a different component when several parts are overloaded and the
+                # twins number their nodes differently
+                if not (isinstance(x, tuple) and isinstance(y, tuple) and x[:2] == y[:2]):
                     return "%s: %r vs %r" % (k, _short(x), _short(y))
                 continue
             d = O.diff_canon(x, y)
